@@ -68,7 +68,7 @@ func TestSweep(t *testing.T) {
 		} else {
 			vals = []kit.Val{convtab.AmpToCode(e.S, 1), convtab.AmpToCode(e.S, -2)}
 		}
-		for _, C := range []int{65536, 65538} {
+		for _, C := range []int{256, 257, 65536, 65538} {
 			Oracle.One(t, env, rec, "sweep", &Case{S: e.S.Name, D: e.D.Name, C: C, Src: Win{Kr: 3, A: 0, B: 3}, Dst: Win{Kr: 2, A: 0, B: 2}, Vals: vals})
 		}
 	}
